@@ -444,6 +444,7 @@ func (s *Subscriber) SyncAdChain(ctx context.Context, peerInfo peer.AddrInfo, op
 
 	hnd := s.getOrCreateHandler(peerInfo.ID)
 	defer s.releaseHandler(hnd)
+	verifYield("e.handler", peerInfo.ID, cid.Undef)
 
 	syncer, updatePeerstore, err := hnd.makeSyncer(peerInfo, true)
 	if err != nil {
@@ -597,6 +598,7 @@ func (s *Subscriber) syncEntries(ctx context.Context, peerInfo peer.AddrInfo, en
 
 	hnd := s.getOrCreateHandler(peerInfo.ID)
 	defer s.releaseHandler(hnd)
+	verifYield("e.handler", peerInfo.ID, cid.Undef)
 
 	syncer, _, err := hnd.makeSyncer(peerInfo, false)
 	if err != nil {
@@ -702,6 +704,7 @@ func (s *Subscriber) getOrCreateHandler(peerID peer.ID) *handler {
 // When no use is left the handler becomes idle, and is removed if it remains
 // idle for idleHandlerTTL.
 func (s *Subscriber) releaseHandler(hnd *handler) {
+	verifYield("r.release", hnd.peerID, cid.Undef)
 	expires := time.Now().Add(s.idleHandlerTTL)
 
 	s.handlersMutex.Lock()
@@ -719,10 +722,12 @@ func (s *Subscriber) idleHandlerCleaner() {
 	for {
 		select {
 		case now := <-t.C:
+			verifYield("i.tick", "", cid.Undef)
 			s.handlersMutex.Lock()
 			for pid, hnd := range s.handlers {
 				if hnd.users == 0 && now.After(hnd.expires) {
 					delete(s.handlers, pid)
+					verifYield("i.removed", pid, cid.Undef)
 					log.Debugw("Removed idle handler", "peer", pid)
 				}
 			}
